@@ -7,10 +7,6 @@ set_option linter.unusedVariables false
 namespace Zk.C15
 open Zk.IA Zk.Cl Zk.ClSpok
 
-/-- one ok-inversion step through a bind, replacing the hypothesis. -/
-macro "bstep " h:ident " with " a:ident t:ident ha:ident : tactic =>
-  `(tactic| (obtain ⟨$a, $t, $ha, hnew__⟩ := bind_ok_inv $h; clear $h; rename' hnew__ => $h))
-
 /-- the revealed messages: the messages at the positions outside `U`, in increasing order. -/
 def revealedOf (msgs : List Int) (U : List Nat) : List Int :=
   ((List.range' 0 msgs.length).filter (fun i => !U.contains i)).map (fun i => msgs.getD i 0)
@@ -354,5 +350,362 @@ theorem proof_complete (hA : ArithOK) (cs : Suite) (hRange : RangeComplete cs) (
   simp only [if_true]
   rw [← hNeq] at hg hh
   exact pokMi_complete hA cs hRange cpk msgs (hNeq ▸ hp.hN) hg hh hm _ U 0 ps rs _ _ h4 rfl rfl tv
+
+/-! ### what acceptance means; altered fields -/
+
+/-- An accepting run recomputes five values whose hash is the challenge. -/
+theorem accept_hash {π : SignaturePoK} {cpk : CommitmentPK} {pk : PublicKey} {bases rev : List Int}
+    {U : List Nat} {n : Nat} {tv tv' : List Draw}
+    (h : nisp5Verify π cpk pk bases rev U n tv = .ok (true, tv')) :
+    ∃ v : View π cpk pk bases rev U n, hashInts v.inputs = π.challenge := by
+  obtain ⟨v, hv⟩ := nisp5Verify_view h
+  exact ⟨v, by rw [eq_comm, beq_iff_eq] at hv; exact hv⟩
+
+theorem idx_mem {α} {l : List α} {i : Nat} {x : α} (h : Cl.idx l i = pure x) : x ∈ l := by
+  have := congrFun h []
+  exact List.mem_of_getElem? (idx_ok_iff.mp this).1
+
+/-- **C15 (statement binding, the hash step).** If the same proof `π` is accepted for two statements
+(any two commitment keys, signer keys, base lists, revealed-message lists, hidden sets and attribute
+counts), then both runs recompute the same five hash inputs — or the two input tuples have the same
+decimal concatenation, or SHA-256 collides. (A refusal by panic is not an acceptance.) -/
+theorem spok_statement_binding {π : SignaturePoK} {cpk cpk' : CommitmentPK} {pk pk' : PublicKey}
+    {bases bases' rev rev' : List Int} {U U' : List Nat} {n n' : Nat} {tv tv' tw tw' : List Draw}
+    (h : nisp5Verify π cpk pk bases rev U n tv = .ok (true, tv'))
+    (h' : nisp5Verify π cpk' pk' bases' rev' U' n' tw = .ok (true, tw')) :
+    ∃ (v : View π cpk pk bases rev U n) (v' : View π cpk' pk' bases' rev' U' n'),
+      (v.in1 = v'.in1 ∧ v.in2 = v'.in2 ∧ v.in3 = v'.in3 ∧ v.in4 = v'.in4 ∧ v.in5 = v'.in5) ∨
+        ConcatAmbiguity ∨ ClHashCollision := by
+  obtain ⟨v, hv⟩ := accept_hash h
+  obtain ⟨v', hv'⟩ := accept_hash h'
+  refine ⟨v, v', ?_⟩
+  rcases hashInts_inj (hv.trans hv'.symm) with hl | he | he
+  · left
+    simp only [View.inputs, List.cons.injEq, and_true] at hl
+    exact hl
+  · exact Or.inr (Or.inl he)
+  · exact Or.inr (Or.inr he)
+
+/-- the hash step for a proof with one field altered (same challenge, same statement). -/
+theorem tamper_hash {π π' : SignaturePoK} {cpk : CommitmentPK}
+    {pk : PublicKey} {bases rev : List Int} {U : List Nat} {n : Nat} {tv tv' tw tw' : List Draw}
+    (h : nisp5Verify π cpk pk bases rev U n tv = .ok (true, tv'))
+    (h' : nisp5Verify π' cpk pk bases rev U n tw = .ok (true, tw'))
+    (hc : π'.challenge = π.challenge) :
+    ∃ (v : View π cpk pk bases rev U n) (v' : View π' cpk pk bases rev U n),
+      0 ≤ π.challenge ∧
+      ((v.in1 = v'.in1 ∧ v.in2 = v'.in2 ∧ v.in3 = v'.in3 ∧ v.in4 = v'.in4 ∧ v.in5 = v'.in5) ∨
+        ConcatAmbiguity ∨ ClHashCollision) := by
+  obtain ⟨v, hv⟩ := accept_hash h
+  obtain ⟨v', hv'⟩ := accept_hash h'
+  refine ⟨v, v', hv ▸ hashInts_nonneg' _, ?_⟩
+  rcases hashInts_inj (hv.trans (hc ▸ hv'.symm)) with hl | he | he
+  · left
+    simp only [View.inputs, List.cons.injEq, and_true] at hl
+    exact hl
+  · exact Or.inr (Or.inl he)
+  · exact Or.inr (Or.inr he)
+
+section tamper
+variable {π : SignaturePoK} {cpk : CommitmentPK} {pk : PublicKey}
+  {bases rev : List Int} {U : List Nat} {n : Nat} {tv tv' tw tw' : List Draw}
+
+/-- **C15 (altered `s_1`).** If an accepted proof is still accepted after `s_1` is replaced by a
+different value, then `h^k ≡ 1 (mod N)` for `k = |s_1 − s_1'| ≠ 0`, or the hash inputs collide. -/
+theorem spok_field_tamper_s1 (hA : ArithOK) (hN : 1 < pk.N) (hg : ∀ g ∈ cpk.gBases, Int.gcd g pk.N = 1)
+    (hh : Int.gcd cpk.h pk.N = 1) (s1' : Int) (hne : s1' ≠ π.s1)
+    (h : nisp5Verify π cpk pk bases rev U n tv = .ok (true, tv'))
+    (h' : nisp5Verify { π with s1 := s1' } cpk pk bases rev U n tw = .ok (true, tw')) :
+    OrderRelation pk.N cpk.h ∨ ConcatAmbiguity ∨ ClHashCollision := by
+  obtain ⟨v, v', hc0, hl | he⟩ := tamper_hash h h' rfl
+  · left
+    have hhU := isU_of_gcd (by omega) hh
+    have eg0 : v'.g0 = v.g0 := pure_inj (v'.e_g0.symm.trans v.e_g0)
+    have hg0U : IsU pk.N v.g0 := isU_of_gcd (by omega) (hg _ (idx_mem v.e_g0))
+    have eg7 : v'.g7 = v.g7 := by
+      have := v'.e_g7; rw [eg0] at this; exact pure_inj (this.symm.trans v.e_g7)
+    have ecw : v'.cw = v.cw := pure_inj (v'.e_cw.symm.trans v.e_cw)
+    have h2 := hl.2.1
+    unfold View.in2 at h2
+    rw [eg7, ecw] at h2
+    exact orderRelation_of_tamper hN hhU hne.symm
+      (tamper_core hA hN hhU v.e_h1 v'.e_h1 (co := v.g7 * v.cw)
+        (isU_mul (good_of_pw hA hN hg0U v.e_g7).2 (good_of_pw_nonpos hA hN (by omega) v.e_cw).2)
+        (by ring) (by ring) h2)
+  · exact Or.inr he
+
+/-- **C15 (altered `s_7`)**: `OrderRelation` on `g_0`. -/
+theorem spok_field_tamper_s7 (hA : ArithOK) (hN : 1 < pk.N) (hg : ∀ g ∈ cpk.gBases, Int.gcd g pk.N = 1)
+    (hh : Int.gcd cpk.h pk.N = 1) (s7' : Int) (hne : s7' ≠ π.s7)
+    (h : nisp5Verify π cpk pk bases rev U n tv = .ok (true, tv'))
+    (h' : nisp5Verify { π with s7 := s7' } cpk pk bases rev U n tw = .ok (true, tw')) :
+    (∃ g0, cpk.gBases[0]? = some g0 ∧ OrderRelation pk.N g0) ∨ ConcatAmbiguity ∨ ClHashCollision := by
+  obtain ⟨v, v', hc0, hl | he⟩ := tamper_hash h h' rfl
+  · left
+    have hhU := isU_of_gcd (by omega) hh
+    have eg0 : v'.g0 = v.g0 := pure_inj (v'.e_g0.symm.trans v.e_g0)
+    have hg0U : IsU pk.N v.g0 := isU_of_gcd (by omega) (hg _ (idx_mem v.e_g0))
+    have eh1 : v'.h1 = v.h1 := pure_inj (v'.e_h1.symm.trans v.e_h1)
+    have ecw : v'.cw = v.cw := pure_inj (v'.e_cw.symm.trans v.e_cw)
+    have h2 := hl.2.1
+    unfold View.in2 at h2
+    rw [eh1, ecw] at h2
+    have e7 := v'.e_g7
+    rw [eg0] at e7
+    refine ⟨v.g0, (idx_ok_iff.mp (congrFun v.e_g0 [])).1, ?_⟩
+    exact orderRelation_of_tamper hN hg0U hne.symm
+      (tamper_core hA hN hg0U v.e_g7 e7 (co := v.h1 * v.cw)
+        (isU_mul (good_of_pw hA hN hhU v.e_h1).2 (good_of_pw_nonpos hA hN (by omega) v.e_cw).2)
+        (by ring) (by ring) h2)
+  · exact Or.inr he
+
+/-- **C15 (altered `s_9`)**: `OrderRelation` on `h`. -/
+theorem spok_field_tamper_s9 (hA : ArithOK) (hN : 1 < pk.N) (hg : ∀ g ∈ cpk.gBases, Int.gcd g pk.N = 1)
+    (hh : Int.gcd cpk.h pk.N = 1) (s9' : Int) (hne : s9' ≠ π.s9)
+    (h : nisp5Verify π cpk pk bases rev U n tv = .ok (true, tv'))
+    (h' : nisp5Verify { π with s9 := s9' } cpk pk bases rev U n tw = .ok (true, tw')) :
+    OrderRelation pk.N cpk.h ∨ ConcatAmbiguity ∨ ClHashCollision := by
+  obtain ⟨v, v', hc0, hl | he⟩ := tamper_hash h h' rfl
+  · left
+    have hhU := isU_of_gcd (by omega) hh
+    have eg0 : v'.g0 = v.g0 := pure_inj (v'.e_g0.symm.trans v.e_g0)
+    have hg0U : IsU pk.N v.g0 := isU_of_gcd (by omega) (hg _ (idx_mem v.e_g0))
+    have eg4 : v'.g4 = v.g4 := by
+      have := v'.e_g4; rw [eg0] at this; exact pure_inj (this.symm.trans v.e_g4)
+    have ece : v'.ce = v.ce := pure_inj (v'.e_ce.symm.trans v.e_ce)
+    have h5 := hl.2.2.2.2
+    unfold View.in5 at h5
+    rw [eg4, ece] at h5
+    exact orderRelation_of_tamper hN hhU hne.symm
+      (tamper_core hA hN hhU v.e_h9 v'.e_h9 (co := v.g4 * v.ce)
+        (isU_mul (good_of_pw hA hN hg0U v.e_g4).2 (good_of_pw_nonpos hA hN (by omega) v.e_ce).2)
+        (by ring) (by ring) h5)
+  · exact Or.inr he
+
+/-- **C15 (altered `s_4`)**: through `in_5 = g_0^{s_4} h^{s_9} C_e^{-c}`, `OrderRelation` on `g_0`. -/
+theorem spok_field_tamper_s4 (hA : ArithOK) (hN : 1 < pk.N) (hg : ∀ g ∈ cpk.gBases, Int.gcd g pk.N = 1)
+    (hh : Int.gcd cpk.h pk.N = 1) (s4' : Int) (hne : s4' ≠ π.s4)
+    (h : nisp5Verify π cpk pk bases rev U n tv = .ok (true, tv'))
+    (h' : nisp5Verify { π with s4 := s4' } cpk pk bases rev U n tw = .ok (true, tw')) :
+    (∃ g0, cpk.gBases[0]? = some g0 ∧ OrderRelation pk.N g0) ∨ ConcatAmbiguity ∨ ClHashCollision := by
+  obtain ⟨v, v', hc0, hl | he⟩ := tamper_hash h h' rfl
+  · left
+    have hhU := isU_of_gcd (by omega) hh
+    have eg0 : v'.g0 = v.g0 := pure_inj (v'.e_g0.symm.trans v.e_g0)
+    have hg0U : IsU pk.N v.g0 := isU_of_gcd (by omega) (hg _ (idx_mem v.e_g0))
+    have eh9 : v'.h9 = v.h9 := pure_inj (v'.e_h9.symm.trans v.e_h9)
+    have ece : v'.ce = v.ce := pure_inj (v'.e_ce.symm.trans v.e_ce)
+    have h5 := hl.2.2.2.2
+    unfold View.in5 at h5
+    rw [eh9, ece] at h5
+    have e4 := v'.e_g4
+    rw [eg0] at e4
+    refine ⟨v.g0, (idx_ok_iff.mp (congrFun v.e_g0 [])).1, ?_⟩
+    exact orderRelation_of_tamper hN hg0U hne.symm
+      (tamper_core hA hN hg0U v.e_g4 e4 (co := v.h9 * v.ce)
+        (isU_mul (good_of_pw hA hN hhU v.e_h9).2 (good_of_pw_nonpos hA hN (by omega) v.e_ce).2)
+        (by ring) (by ring) h5)
+  · exact Or.inr he
+
+/-- **C15 (altered `s_3`)**: through `in_4`, `OrderRelation` on `h`. -/
+theorem spok_field_tamper_s3 (hA : ArithOK) (hN : 1 < pk.N) (hg : ∀ g ∈ cpk.gBases, Int.gcd g pk.N = 1)
+    (hh : Int.gcd cpk.h pk.N = 1) (s3' : Int) (hne : s3' ≠ π.s3)
+    (h : nisp5Verify π cpk pk bases rev U n tv = .ok (true, tv'))
+    (h' : nisp5Verify { π with s3 := s3' } cpk pk bases rev U n tw = .ok (true, tw')) :
+    OrderRelation pk.N cpk.h ∨ ConcatAmbiguity ∨ ClHashCollision := by
+  obtain ⟨v, v', hc0, hl | he⟩ := tamper_hash h h' rfl
+  · left
+    have hhU := isU_of_gcd (by omega) hh
+    have em4 : v'.m4 = v.m4 := pure_inj (v'.e_m4.symm.trans v.e_m4)
+    have ecx : v'.cx = v.cx := pure_inj (v'.e_cx.symm.trans v.e_cx)
+    have hm4 : Good pk.N v.m4 := mixLoop_good hA hN _ _ _ _ _
+      (fun g hgm => isU_of_gcd (by omega) (hg g hgm)) _ _ _ _ _ _ good_one v.e_m4
+    have h4 := hl.2.2.2.1
+    unfold View.in4 at h4
+    rw [em4, ecx] at h4
+    exact orderRelation_of_tamper hN hhU hne.symm
+      (tamper_core hA hN hhU v.e_h3 v'.e_h3 (co := v.m4 * v.cx)
+        (isU_mul hm4.2 (good_of_pw_nonpos hA hN (by omega) v.e_cx).2)
+        (by ring) (by ring) h4)
+  · exact Or.inr he
+
+/-- **C15 (altered `s_6`)**: through `in_1`; needs `C_v` invertible modulo `N` (a non-invertible
+non-zero `C_v` exhibits a factor of `N`). `OrderRelation` on `b`. -/
+theorem spok_field_tamper_s6 (hA : ArithOK) (hN : 1 < pk.N) (hg : ∀ g ∈ cpk.gBases, Int.gcd g pk.N = 1)
+    (ha : ∀ a ∈ bases, Int.gcd a pk.N = 1) (hb : Int.gcd pk.b pk.N = 1)
+    (hCv : Int.gcd π.Cv.value pk.N = 1) (s6' : Int) (hne : s6' ≠ π.s6)
+    (h : nisp5Verify π cpk pk bases rev U n tv = .ok (true, tv'))
+    (h' : nisp5Verify { π with s6 := s6' } cpk pk bases rev U n tw = .ok (true, tw')) :
+    OrderRelation pk.N pk.b ∨ ConcatAmbiguity ∨ ClHashCollision := by
+  obtain ⟨v, v', hc0, hl | he⟩ := tamper_hash h h' rfl
+  · left
+    have hbU := isU_of_gcd (by omega) hb
+    have hCvU := isU_of_gcd (by omega) hCv
+    have eg0 : v'.g0 = v.g0 := pure_inj (v'.e_g0.symm.trans v.e_g0)
+    have hg0U : IsU pk.N v.g0 := isU_of_gcd (by omega) (hg _ (idx_mem v.e_g0))
+    have ea : v'.a = v.a := pure_inj (v'.e_a.symm.trans v.e_a)
+    have etCx : v'.tCx = v.tCx := pure_inj (v'.e_tCx.symm.trans v.e_tCx)
+    have eitCx : v'.itCx = v.itCx := by
+      have := v'.e_itCx; rw [etCx] at this; exact pure_inj (this.symm.trans v.e_itCx)
+    have eib : v'.ib = v.ib := pure_inj (v'.e_ib.symm.trans v.e_ib)
+    have eig : v'.ig = v.ig := by
+      have := v'.e_ig; rw [eg0] at this; exact pure_inj (this.symm.trans v.e_ig)
+    have eig8 : v'.ig8 = v.ig8 := by
+      have := v'.e_ig8; rw [eig] at this; exact pure_inj (this.symm.trans v.e_ig8)
+    have ecc : v'.cc = v.cc := pure_inj (v'.e_cc.symm.trans v.e_cc)
+    have htCx : Good pk.N v.tCx := mixLoop_good hA hN _ _ _ _ _
+      (fun a ham => isU_of_gcd (by omega) (ha a ham)) _ _ _ _ _ _ good_one v.e_tCx
+    have hitCx : IsU pk.N v.itCx := by
+      rw [eq_can_of_divm hA hN (good_tmod hN htCx).2 v.e_itCx]; exact isU_can hN _
+    have hib : v.ib = can pk.N (-(rp pk.N pk.b)) := eq_can_of_divm hA hN hbU v.e_ib
+    have hibU : IsU pk.N v.ib := by rw [hib]; exact isU_can hN _
+    have hig : IsU pk.N v.ig := by rw [eq_can_of_divm hA hN hg0U v.e_ig]; exact isU_can hN _
+    have h1 := hl.1
+    unfold View.in1 at h1
+    rw [ea, eitCx, eig8, ecc] at h1
+    have e6 := v'.e_ib6
+    rw [eib] at e6
+    have hz := tamper_core hA hN hibU v.e_ib6 e6 (co := v.a * v.itCx * v.ig8 * v.cc)
+        (isU_mul (isU_mul (isU_mul (good_of_pw hA hN hCvU v.e_a).2 hitCx)
+          (good_of_pw hA hN hig v.e_ig8).2) (good_of_pw_nonpos hA hN (by omega) v.e_cc).2)
+        (by ring) (by ring) h1
+    rw [hib, rp_can hN] at hz
+    refine orderRelation_of_tamper hN hbU hne ?_
+    have : (s6' - π.s6) • rp pk.N pk.b = (π.s6 - s6') • -(rp pk.N pk.b) := by module
+    rw [this]; exact hz
+  · exact Or.inr he
+
+/-- **C15 (altered `s_2`)**: through `in_3`; needs `C_w` invertible modulo `N`. `OrderRelation` on `h`. -/
+theorem spok_field_tamper_s2 (hA : ArithOK) (hN : 1 < pk.N) (hg : ∀ g ∈ cpk.gBases, Int.gcd g pk.N = 1)
+    (hh : Int.gcd cpk.h pk.N = 1) (hCw : Int.gcd π.Cw.value pk.N = 1) (s2' : Int) (hne : s2' ≠ π.s2)
+    (h : nisp5Verify π cpk pk bases rev U n tv = .ok (true, tv'))
+    (h' : nisp5Verify { π with s2 := s2' } cpk pk bases rev U n tw = .ok (true, tw')) :
+    OrderRelation pk.N cpk.h ∨ ConcatAmbiguity ∨ ClHashCollision := by
+  obtain ⟨v, v', hc0, hl | he⟩ := tamper_hash h h' rfl
+  · left
+    have hhU := isU_of_gcd (by omega) hh
+    have hCwU := isU_of_gcd (by omega) hCw
+    have eg0 : v'.g0 = v.g0 := pure_inj (v'.e_g0.symm.trans v.e_g0)
+    have hg0U : IsU pk.N v.g0 := isU_of_gcd (by omega) (hg _ (idx_mem v.e_g0))
+    have ecw4 : v'.cw4 = v.cw4 := pure_inj (v'.e_cw4.symm.trans v.e_cw4)
+    have eig : v'.ig = v.ig := by
+      have := v'.e_ig; rw [eg0] at this; exact pure_inj (this.symm.trans v.e_ig)
+    have eig8 : v'.ig8 = v.ig8 := by
+      have := v'.e_ig8; rw [eig] at this; exact pure_inj (this.symm.trans v.e_ig8)
+    have eih : v'.ih = v.ih := pure_inj (v'.e_ih.symm.trans v.e_ih)
+    have hig : IsU pk.N v.ig := by rw [eq_can_of_divm hA hN hg0U v.e_ig]; exact isU_can hN _
+    have hih : v.ih = can pk.N (-(rp pk.N cpk.h)) := eq_can_of_divm hA hN hhU v.e_ih
+    have hihU : IsU pk.N v.ih := by rw [hih]; exact isU_can hN _
+    have h3 := hl.2.2.1
+    unfold View.in3 at h3
+    rw [ecw4, eig8] at h3
+    have e2 := v'.e_ih2
+    rw [eih] at e2
+    have hz := tamper_core hA hN hihU v.e_ih2 e2 (co := v.cw4 * v.ig8)
+        (isU_mul (good_of_pw hA hN hCwU v.e_cw4).2 (good_of_pw hA hN hig v.e_ig8).2)
+        (by ring) (by ring) h3
+    rw [hih, rp_can hN] at hz
+    refine orderRelation_of_tamper hN hhU hne ?_
+    have : (s2' - π.s2) • rp pk.N cpk.h = (π.s2 - s2') • -(rp pk.N cpk.h) := by module
+    rw [this]; exact hz
+  · exact Or.inr he
+
+/-- **C15 (altered `s_8`)**: through `in_3`; needs `C_w` invertible modulo `N`. `OrderRelation` on `g_0`. -/
+theorem spok_field_tamper_s8 (hA : ArithOK) (hN : 1 < pk.N) (hg : ∀ g ∈ cpk.gBases, Int.gcd g pk.N = 1)
+    (hh : Int.gcd cpk.h pk.N = 1) (hCw : Int.gcd π.Cw.value pk.N = 1) (s8' : Int) (hne : s8' ≠ π.s8)
+    (h : nisp5Verify π cpk pk bases rev U n tv = .ok (true, tv'))
+    (h' : nisp5Verify { π with s8 := s8' } cpk pk bases rev U n tw = .ok (true, tw')) :
+    (∃ g0, cpk.gBases[0]? = some g0 ∧ OrderRelation pk.N g0) ∨ ConcatAmbiguity ∨ ClHashCollision := by
+  obtain ⟨v, v', hc0, hl | he⟩ := tamper_hash h h' rfl
+  · left
+    have hhU := isU_of_gcd (by omega) hh
+    have hCwU := isU_of_gcd (by omega) hCw
+    have eg0 : v'.g0 = v.g0 := pure_inj (v'.e_g0.symm.trans v.e_g0)
+    have hg0U : IsU pk.N v.g0 := isU_of_gcd (by omega) (hg _ (idx_mem v.e_g0))
+    have ecw4 : v'.cw4 = v.cw4 := pure_inj (v'.e_cw4.symm.trans v.e_cw4)
+    have eig : v'.ig = v.ig := by
+      have := v'.e_ig; rw [eg0] at this; exact pure_inj (this.symm.trans v.e_ig)
+    have eih : v'.ih = v.ih := pure_inj (v'.e_ih.symm.trans v.e_ih)
+    have eih2 : v'.ih2 = v.ih2 := by
+      have := v'.e_ih2; rw [eih] at this; exact pure_inj (this.symm.trans v.e_ih2)
+    have hig : v.ig = can pk.N (-(rp pk.N v.g0)) := eq_can_of_divm hA hN hg0U v.e_ig
+    have higU : IsU pk.N v.ig := by rw [hig]; exact isU_can hN _
+    have hihU : IsU pk.N v.ih := by rw [eq_can_of_divm hA hN hhU v.e_ih]; exact isU_can hN _
+    have h3 := hl.2.2.1
+    unfold View.in3 at h3
+    rw [ecw4, eih2] at h3
+    have e8 := v'.e_ig8
+    rw [eig] at e8
+    have hz := tamper_core hA hN higU v.e_ig8 e8 (co := v.cw4 * v.ih2)
+        (isU_mul (good_of_pw hA hN hCwU v.e_cw4).2 (good_of_pw hA hN hihU v.e_ih2).2)
+        (by ring) (by ring) h3
+    rw [hig, rp_can hN] at hz
+    refine ⟨v.g0, (idx_ok_iff.mp (congrFun v.e_g0 [])).1, orderRelation_of_tamper hN hg0U hne ?_⟩
+    have : (s8' - π.s8) • rp pk.N v.g0 = (π.s8 - s8') • -(rp pk.N v.g0) := by module
+    rw [this]; exact hz
+  · exact Or.inr he
+
+end tamper
+
+/-! ### a different revealed attribute -/
+
+/-- **C15 (different revealed attribute).** If the same proof is accepted for two message vectors that
+differ in exactly one revealed position `j0` (same keys, bases, hidden set, attribute count), then
+`g_{j0}^k ≡ 1 (mod N)` for `k = |m_{j0} − m'_{j0}|·(1 + c) ≠ 0` — an `OrderRelation` on the commitment
+base of that position (read off `in_4`, whose other factors `h^{s_3}` and `C_x^{-c}` are invertible
+whatever the prover sent) — or the hash inputs collide. -/
+theorem spok_revealed_binding (hA : ArithOK) {π : SignaturePoK} {cpk : CommitmentPK} {pk : PublicKey}
+    {bases : List Int} {U : List Nat} {tv tv' tw tw' : List Draw}
+    (hN : 1 < pk.N) (hg : ∀ g ∈ cpk.gBases, Int.gcd g pk.N = 1) (hh : Int.gcd cpk.h pk.N = 1)
+    (msgs msgs' : List Int) (hlen : msgs'.length = msgs.length)
+    (hn : msgs.length ≤ cpk.gBases.length) (j0 : Nat)
+    (hjU : U.contains j0 = false) (hdiff : msgs.getD j0 0 ≠ msgs'.getD j0 0)
+    (hsame : ∀ j, j ≠ j0 → msgs.getD j 0 = msgs'.getD j 0)
+    (h : nisp5Verify π cpk pk bases (revealedOf msgs U) U msgs.length tv = .ok (true, tv'))
+    (h' : nisp5Verify π cpk pk bases (revealedOf msgs' U) U msgs.length tw = .ok (true, tw')) :
+    (OrderRelation pk.N (cpk.gBases.getD j0 1) ∧ j0 < msgs.length) ∨ ConcatAmbiguity ∨ ClHashCollision := by
+  obtain ⟨v, hv⟩ := accept_hash h
+  obtain ⟨v', hv'⟩ := accept_hash h'
+  have hc0 : 0 ≤ π.challenge := hv ▸ hashInts_nonneg' _
+  rcases hashInts_inj (hv.trans hv'.symm) with hl | he | he
+  · left
+    simp only [View.inputs, List.cons.injEq, and_true] at hl
+    have h4 := hl.2.2.2.1
+    have hgU : ∀ g ∈ cpk.gBases, IsU pk.N g := fun g hgm => isU_of_gcd (by omega) (hg g hgm)
+    have hhU := isU_of_gcd (by omega) hh
+    have eh3 : v'.h3 = v.h3 := pure_inj (v'.e_h3.symm.trans v.e_h3)
+    have ecx : v'.cx = v.cx := pure_inj (v'.e_cx.symm.trans v.e_cx)
+    have hm4 : Good pk.N v.m4 := mixLoop_good hA hN _ _ _ _ _ hgU _ _ _ _ _ _ good_one v.e_m4
+    have hm4' : Good pk.N v'.m4 := mixLoop_good hA hN _ _ _ _ _ hgU _ _ _ _ _ _ good_one v'.e_m4
+    have hh3 := good_of_pw hA hN hhU v.e_h3
+    have hcx := good_of_pw_nonpos hA hN (by omega) v.e_cx
+    unfold View.in4 at h4
+    rw [eh3, ecx, tmod_good hN (good_mul (good_mul hm4 hh3) hcx),
+      tmod_good hN (good_mul (good_mul hm4' hh3) hcx)] at h4
+    have h4 := can_inj hN h4
+    rw [rp_mul_good (good_mul hm4 hh3) hcx, rp_mul_good hm4 hh3,
+      rp_mul_good (good_mul hm4' hh3) hcx, rp_mul_good hm4' hh3] at h4
+    have hmm : rp pk.N v.m4 = rp pk.N v'.m4 := add_right_cancel (add_right_cancel h4)
+    have hd := mixLoop_diff_rev hA hN cpk.gBases π.s5 (revealedOf msgs U) (revealedOf msgs' U) U
+      π.challenge hgU (fun i => msgs.getD i 0) (fun i => msgs'.getD i 0) msgs.length 0 0 0 1 1
+      v.m4 v'.m4 good_one good_one (by rw [List.drop_zero]; rfl)
+      (by rw [List.drop_zero]; unfold revealedOf; rw [hlen]) v.e_m4 v'.e_m4
+    rw [hmm, sub_self, sub_self, zero_add] at hd
+    by_cases hj : j0 < msgs.length
+    · rw [Finset.sum_eq_single j0] at hd
+      · rw [hjU] at hd
+        simp only [Bool.false_eq_true, if_false] at hd
+        refine ⟨orderRelation_of_zsmul hN (hgU _ (getD_mem (by omega) 1)) (k := (msgs.getD j0 0 - msgs'.getD j0 0) * (1 + π.challenge)) ?_ hd.symm, hj⟩
+        exact mul_ne_zero (sub_ne_zero.mpr hdiff) (by omega)
+      · intro j _ hjne
+        rw [hsame j hjne, sub_self, zero_mul, ite_self, zero_smul]
+      · intro hnot
+        exact absurd (Finset.mem_Ico.mpr ⟨by omega, by omega⟩) hnot
+    · exfalso
+      apply hdiff
+      rw [List.getD_eq_getElem?_getD, List.getD_eq_getElem?_getD,
+        List.getElem?_eq_none (by omega), List.getElem?_eq_none (by omega)]
+  · exact Or.inr (Or.inl he)
+  · exact Or.inr (Or.inr he)
 
 end Zk.C15
